@@ -134,6 +134,27 @@ theorem append_refused_bridge (cap len n : Nat) (h1 : len ≤ cap) (h2 : cap < 2
   have : (cap + 18446744073709551616 - len) % 18446744073709551616 = cap - len := by omega
   rw [this]; split <;> simp_all
 
+-- ---------------------------------------------------------------- widths and storage of locals (clang AST)
+/-- no function-local of xml_parser.c has static storage: all parser state is on the caller's stack, so independent
+documents can be parsed on different threads -/
+theorem no_static_locals : staticLocals = [] := by decide
+
+/-- no explicit cast to an integer type narrower than 64 bits in the parser's functions -/
+theorem no_narrow_casts : narrowCasts = [] := by decide
+
+/-- every integer local of the parser's functions is 64 bits wide (`size_t`), except the byte `name_end` and the
+flag `parent_closed`: offsets, lengths and counters are modelled as unbounded `Nat` without wrap-around, which is
+sound for documents of at most SIZE_MAX/2 bytes only if none of them is narrower -/
+theorem int_locals_wide : ∀ x ∈ intLocals, x.2.2 = 64 ∨ x = ("s_advance_to_closing_tag", "name_end", 8) ∨
+    x = ("aws_xml_node_traverse", "parent_closed", 1) := by decide
+
+/-- in particular the same-name nesting counter of `s_advance_to_closing_tag` (not bounded by the depth limit: a
+skipped / body-read subtree is scanned whatever its depth) and the tag offsets of the traversal -/
+theorem counters_and_offsets_wide :
+    ("s_advance_to_closing_tag", "depth_count", 64) ∈ intLocals ∧ ("s_advance_to_closing_tag", "skip_len", 64) ∈ intLocals ∧
+    ("s_advance_to_closing_tag", "len", 64) ∈ intLocals ∧ ("aws_xml_node_traverse", "node_name_len", 64) ∈ intLocals ∧
+    ("s_node_next_sibling", "node_name_len", 64) ∈ intLocals ∧ HALF + 1 < 2 ^ 64 := by decide
+
 theorem limits_as_documented : maxDocumentDepth = DEFAULT_MAX_DEPTH ∧ maxNameLen = MAX_NAME_LEN := by decide
 
 end AwsVerif.Xml
